@@ -22,6 +22,7 @@ type c13Run struct {
 	order  string // VERIF_ORDER ("" = hook-free)
 	engine string
 	skip   bool // skipGenerateDateComment
+	procs  int  // GOMAXPROCS for the child (0 = inherit)
 	exit   int
 	spec   []byte
 	routes []byte
@@ -147,6 +148,9 @@ func c13(c *orch.Ctx) (*report.Result, error) {
 			if run.order != "" {
 				env = append(env, "VERIF_ORDER="+run.order)
 			}
+			if run.procs > 0 {
+				env = append(env, fmt.Sprintf("GOMAXPROCS=%d", run.procs))
+			}
 			cr := l.Gleece(bin, dir, p.Name+"-"+run.tag, 240, env, "generate", "spec-and-routes", "-c", cfgName, "--no-banner")
 			run.exit = cr.Exit
 			run.spec, _ = os.ReadFile(filepath.Join(dir, "out-"+run.tag, "openapi.json"))
@@ -192,7 +196,12 @@ func c13(c *orch.Ctx) (*report.Result, error) {
 			runs = append(runs, &c13Run{tag: fmt.Sprintf("joint-s%d", i), order: fmt.Sprintf("*=s%d", 77*int(c.Seed)+i), engine: "gin", skip: true})
 		}
 		for i := 0; i < nFree; i++ {
-			runs = append(runs, &c13Run{tag: fmt.Sprintf("free%d", i), order: "", engine: "gin", skip: true})
+			runs = append(runs, &c13Run{tag: fmt.Sprintf("free%d", i), order: "", engine: "gin", skip: true, procs: []int{0, 1, 0, 2, 0, 3}[i%6]})
+		}
+		// scheduling perturbation with the iteration orders pinned: packages.Load parses files concurrently,
+		// so anything derived from token positions across files depends on the schedule
+		for _, np := range []int{1, 2, 5, 64} {
+			runs = append(runs, &c13Run{tag: fmt.Sprintf("sched%d", np), order: "canon", engine: "gin", skip: true, procs: np})
 		}
 		for _, e := range []string{"echo", "mux", "chi", "fiber"} {
 			runs = append(runs, &c13Run{tag: "eng-" + e, order: "canon", engine: e, skip: true})
@@ -273,7 +282,7 @@ func c13(c *orch.Ctx) (*report.Result, error) {
 	for s, m := range distinctOrders {
 		orderCounts[s] = len(m)
 	}
-	res.Rule = fmt.Sprintf("%d multi-controller / multi-file / multi-package 'fullspec' projects (alternating 3.0.0/3.1.0); per accepted project: a canonical-order reference run, then for each hook-H1 site (source-files, loaded-packages, find-by-kind) every permutation when the site holds <=4 elements, otherwise %d seeded shuffles + the reversal, 6 joint shuffles of all three sites, %d hook-free runs in fresh processes (Go's own map randomisation), the four other engines (spec only) and one run with the date comment; spec and routes bytes compared with the reference. distinct = distinct (site sizes, #controllers, version) tuples", nProj, nSample, nFree)
+	res.Rule = fmt.Sprintf("%d multi-controller / multi-file / multi-package 'fullspec' projects (alternating 3.0.0/3.1.0); per accepted project: a canonical-order reference run, then for each hook-H1 site (source-files, loaded-packages, find-by-kind) every permutation when the site holds <=4 elements, otherwise %d seeded shuffles + the reversal, 6 joint shuffles of all three sites, %d hook-free runs in fresh processes (Go's own map randomisation; GOMAXPROCS 1/2/3 on every other one), four canonical-order runs under GOMAXPROCS 1/2/5/64 (parse schedule), the four other engines (spec only) and one run with the date comment; spec and routes bytes compared with the reference. distinct = distinct (site sizes, #controllers, version) tuples", nProj, nSample, nFree)
 	res.Extra("cli_runs", totalRuns)
 	res.Extra("distinct_orders_forced_per_site", orderCounts)
 	res.Extra("output_variants_per_project", outputsSeen)
